@@ -41,8 +41,9 @@ def _cases() -> List[dict]:
         for R in (1, 2, 5):
             for J in (0, 1, 3):
                 for j in range(J + 1):
-                    cases.append({"worker": worker, "case": {"limit": "max_requests", "R": R, "J": J, "j": j,
-                                                             "per_conn": 1 + (R + j) % 3}})
+                    for conn_kind in ("h1", "h2", "h2c"):
+                        cases.append({"worker": worker, "case": {"limit": "max_requests", "R": R, "J": J, "j": j,
+                                                                 "per_conn": 1 + (R + j) % 3, "conn_kind": conn_kind}})
     return cases
 
 
@@ -466,20 +467,34 @@ def _max_requests(tape: Tape, world: World, host: AppHost, case: dict, out: Outc
     n = 0
     ci = 0
     t = 0.1
-    use_h2 = bool(tape.chance(1, 4, "h2")) if not case else False
     while n < total:
         k = min(per_conn, total - n)
         ctags = [b"c%dr%d" % (ci, i) for i in range(k)]
-        if use_h2 and ci % 2 == 1:
+        conn_kind = case.get("conn_kind") or tape.choice(["h1", "h1", "h2", "h2c"], "conn_kind")
+        if conn_kind in ("h2", "h2c"):
             peer = H2Peer()
             sids = [peer.new_stream() for _ in ctags]
-            steps: List[tuple] = [("send", peer.preface())]
-            for sid, tg in zip(sids, ctags):
+            if conn_kind == "h2c":
+                # the first request arrives as an HTTP/1.1 request that upgrades the connection (stream 1)
+                from ..peers.h2 import H2cUpgradeParser
+
+                first = _get(ctags[0], b"Connection: Upgrade, HTTP2-Settings\r\nUpgrade: h2c\r\nHTTP2-Settings: "
+                             + peer.settings_payload_b64() + b"\r\n")
+                peer.open_stream(1)
+                steps = [("send", first + peer.preface()),
+                         ("wait", (lambda peer: lambda sc: sc.ended or peer.stream_done(1))(peer), 2.0), ("sleep", 0.05)]
+                sink: Any = H2cUpgradeParser(peer)
+                rest = list(zip(sids[1:], ctags[1:]))
+            else:
+                steps = [("send", peer.preface())]
+                sink = peer
+                rest = list(zip(sids, ctags))
+            for sid, tg in rest:
                 steps.append(("call", (lambda sid, tg, peer: lambda sc: None if sc.ended else sc.conn.client.send(
                     peer.headers(sid, _h2_headers(tg), end_stream=True)))(sid, tg, peer)))
                 steps.append(("wait", (lambda sid, peer: lambda sc: sc.ended or peer.stream_done(sid))(sid, peer), 2.0))
                 steps.append(("sleep", 0.05))
-            s = Script(world, steps, peer)
+            s = Script(world, steps, sink)
         else:
             parser = h1peer.ResponseParser()
             steps = []
